@@ -30,7 +30,8 @@ def events_of(t):
     if k == 'subtests':
         f = sum(1 for s in t.get('sub') or () if s[0] == 'fail')
         e = sum(1 for s in t.get('sub') or () if s[0] == 'error')
-        return (f, e, 0, 0)
+        sk = sum(1 for s in t.get('sub') or () if s[0] == 'skip')    # skipTest() inside a subTest block
+        return (f, e, sk, 0)
     return EVENTS[k]
 
 
